@@ -49,6 +49,51 @@ Theorem conn_state_is_function_of_own_bytes : forall cf sched srv j,
 Proof. exact server_conn_own_bytes. Qed.
 Print Assumptions conn_state_is_function_of_own_bytes.
 
+(* KEEP-ALIVE.  The whole life of a server connection -- any number of successive / pipelined
+   requests, each answered and the parser re-made when the request asked to persist, until a
+   failed request or a non-persistent one closes it -- is split independent: responses sent,
+   closed-or-open, parser state and unconsumed bytes depend on the concatenation only. *)
+Theorem keepalive_connection_split_independent : forall cf pieces,
+  ka_feed_all cf ka_init pieces = ka_feed cf ka_init (concat pieces).
+Proof. exact ka_split_independent. Qed.
+Print Assumptions keepalive_connection_split_independent.
+
+(* at every moment of that life the outcome is a request, need-more or failed-and-closed *)
+Theorem keepalive_never_escapes : forall cf pieces, ka_outcome (ka_feed_all cf ka_init pieces) <> OEscapes.
+Proof. exact (fun cf pieces => ka_never_escapes _). Qed.
+Print Assumptions keepalive_never_escapes.
+
+Theorem keepalive_closed_iff_failed_or_final : forall k, ka_closed k = true <->
+  (exists e, p_stage (fst (fst k)) = SFail e) \/ p_stage (fst (fst k)) = SDone.
+Proof. exact ka_closed_iff. Qed.
+Print Assumptions keepalive_closed_iff_failed_or_final.
+
+(* several keep-alive connections, any interleaving, any garbage on the others: connection j
+   ends exactly as the keep-alive parse of its own bytes *)
+Theorem keepalive_server_conn_own_bytes : forall cf sched srv j, nth_error srv j = Some ka_init ->
+  nth_error (grun ka_conn bytes (ka_deliver cf) sched srv) j
+  = Some (ka_feed cf ka_init (concat (events_for bytes j sched))).
+Proof. exact ka_server_own_bytes. Qed.
+Print Assumptions keepalive_server_conn_own_bytes.
+
+(* TLS (https Valet).  Whatever happens on connection i -- handshake failure included -- every
+   other connection is untouched; the connection whose handshake failed is dropped for good. *)
+Theorem tls_other_conns_untouched : forall cf srv i j e, i <> j ->
+  nth_error (gdeliver tls_conn tls_event (tls_deliver cf) i e srv) j = nth_error srv j.
+Proof. exact (fun cf => gdeliver_other tls_conn tls_event (tls_deliver cf)). Qed.
+Print Assumptions tls_other_conns_untouched.
+
+Theorem tls_conn_sees_only_its_own_events : forall cf sched srv j c, nth_error srv j = Some c ->
+  nth_error (grun tls_conn tls_event (tls_deliver cf) sched srv) j
+  = Some (fold_left (tls_deliver cf) (events_for tls_event j sched) c).
+Proof. exact (fun cf => grun_projection tls_conn tls_event (tls_deliver cf)). Qed.
+Print Assumptions tls_conn_sees_only_its_own_events.
+
+Theorem tls_failed_handshake_drops_only_itself : forall cf c es, fst c = Handshaking ->
+  fold_left (tls_deliver cf) (TlsHandshake HsFail :: es) c = (Dropped, snd c).
+Proof. exact tls_fail_fold. Qed.
+Print Assumptions tls_failed_handshake_drops_only_itself.
+
 (* non-vacuity: the failure sites are reachable, and a bad neighbour changes nothing *)
 Definition cf0 := mkcfg 65536 100 [bz "http://a:b/"].
 Definition nl : bytes := [13; 10].
